@@ -181,13 +181,19 @@ def run_vectors(desc, ctx):
                 sig = "%s|%s|%s-%s|vector" % (name, agg_class(agg or "mean"), cls, ncls)
                 ctx.case(sig, (len(vo) >= 2 and want == want) or want != want,
                          {"metric": name, "agg": agg, "obs": o[:8], "fcst": f[:8], "definition": want})
+                ao, af = np.array(o, float), np.array(f, float)
                 try:
-                    got = m.compute_from_obs_fcst(np.array(o, float), np.array(f, float))
+                    got = m.compute_from_obs_fcst(ao, af)
                 except Exception as e:
                     ctx.violation("exception|%s|%s" % (name, type(e).__name__), "%s(agg=%s) raised %r on obs=%s fcst=%s"
                                   % (name, agg, e, o[:10], f[:10]), case)
                     continue
                 ctx.count("vector_evals")
+                # the pairs handed in are the caller's (Data hands out its cached arrays): a score is a function of them, it
+                # does not rearrange or overwrite them (the next metric on the same slice would be computed on other pairs)
+                if not (np.array_equal(ao, np.array(o, float), equal_nan=True) and np.array_equal(af, np.array(f, float), equal_nan=True)):
+                    ctx.violation("pairs-altered-by-metric|" + name, "%s(agg=%s) changed the arrays it was given: obs %s -> %s, fcst %s -> %s"
+                                  % (name, agg, o[:8], ao[:8].tolist(), f[:8], af[:8].tolist()), case)
                 compare(ctx, name, got, want, "%s(agg=%s) on %d pairs (%s)" % (name, agg, len(vo), cls), case)
                 # never better than perfect (default aggregator only)
                 if agg is None and name in ERROR_SKILL and m.perfect_score is not None and want == want:
@@ -244,9 +250,14 @@ def run_data(desc, ctx):
         F = len(ds["inputs"])
         fields = [("obs",), ("fcst",)]
         names = rng.sample(sorted(mets), 6)
+        # an analyst's session: half of the datasets get all six scores along ONE axis from the one Data object (the requests
+        # hit the same cached slices one after the other), the others a fresh axis per score
+        session_axis = rng.choice(refmodel.ALL_AXES) if rng.random() < 0.5 else None
+        if session_axis:
+            ctx.count("datasets_scored_along_one_axis")
         for name in names:
             ref = NAMES[name]
-            axis = rng.choice(refmodel.ALL_AXES)
+            axis = session_axis or rng.choice(refmodel.ALL_AXES)
             m = mets[name]()
             agg = None
             if m.supports_aggregator and rng.random() < 0.5:
